@@ -39,3 +39,4 @@ func verifStringOf(s string) string                     { return s }
 func verifMsgQuotedRune(msg string) (rune, bool)          { return 0, false }
 func verifParseYAML(src string) *yaml.Node               { return nil }
 func verifIsNative() bool                              { return false }
+func verifDebug(label string, s string)                 {}
